@@ -16,7 +16,7 @@ Assume/guarantee composition over the real MIR of path_plan/cartesian.rs and pat
   plan                     collision test of the start configuration; strategies = collision-aware solutions of the landing pose continued from the start; every strategy probed with the start
                            configuration and the densified stroke; success <=> some strategy works, whatever hit rayon's find_map_any returns (schedule independence), result = that strategy's path
 Native battery (real planner, 8 fixed scenes x 3 pool sizes + seeded random scenes): every clause of the property on every returned path.
-Outside the claim: more than 4 interpolated poses per segment / 3 stroke poses / recursion depth 3 (bounds); transition coefficients other than DEFAULT_TRANSITION_COSTS;
+Outside the claim: more than 4 interpolated poses per segment / 3 stroke poses / recursion depth 3 (bounds); transition coefficients other than the one concrete weight vector used;
 rotation part of "on the segment" (slerp is an oracle); termination and success probability of RRT; printing.
 """
 import itertools, re
@@ -157,7 +157,7 @@ def install_cartesian(eng, rec):
     M(r'^<.* as std::iter::Iterator>::skip$', skip)
     M(r'core::num::<impl usize>::saturating_sub$', lambda e, st, fr, f, a, m: one(st, max(a[0] - a[1], 0) if not isz(a[0]) and not isz(a[1]) else z3.If(zi(a[0]) >= zi(a[1]), zi(a[0]) - zi(a[1]), z3.IntVal(0))))
 
-COEFS = ('1.2', '1.1', '1.1', '0.9', '0.9', '0.8')      # DEFAULT_TRANSITION_COSTS: concrete weights keep the cost comparisons linear
+COEFS = ('2', '3/2', '5/4', '3/4', '1/2', '3')      # concrete weights keep the cost comparisons linear; deliberately NOT DEFAULT_TRANSITION_COSTS (the configured weights must be the ones used)
 def cartesian(robot, step_m=None, step_rad=None, cost=None, depth=0, include=True):
     """the planner value; field order = declaration order"""
     return Agg([robot, F(step_m if step_m is not None else z3.Real('check_step_m')), F(step_rad if step_rad is not None else z3.Real('check_step_rad')),
@@ -602,7 +602,7 @@ PROBE_SCRIPTS = [
 
 def run(ck):
     ck.bounds = dict(interpolated='<= 4 poses per segment', stroke='<= 3 given stroke poses (4 thorough)', recursion='linear_recursion_depth <= 2 (3 thorough)', answers='2 per inverse call',
-                     coefficients='DEFAULT_TRANSITION_COSTS', probe='4 annotated poses (LAND, LIN_INTERP, TRACE, PARK), scripted step outcomes with symbolic values', plan='0 or 2 landing solutions')
+                     coefficients='one concrete non-default weight vector (2, 3/2, 5/4, 3/4, 1/2, 3)', probe='4 annotated poses (LAND, LIN_INTERP, TRACE, PARK), scripted step outcomes with symbolic values', plan='0 or 2 landing solutions')
     ck.assumptions += ['real arithmetic', 'what the kinematic stack answers is C01-C09 (answers reproduce the pose, respect the limits), what the collision-aware robot answers is C10/C11, what dual_rrt_connect returns is C13',
                        'slerp / rotation angle are oracles (some rotation / some non-negative angle determined by the arguments)', 'rayon: par_iter().any = any, find_map_any = ANY hit']
     check_add_intermediate(ck)
